@@ -2,6 +2,7 @@ package c07
 
 import (
 	"fmt"
+	"math"
 	"os"
 	"sort"
 	"strconv"
@@ -194,6 +195,90 @@ func genNum(t *rapid.T, source string, allowEqualPair bool, seenInt, seenFloat m
 	return val.Str(s)
 }
 
+var bigBases = []int64{1 << 53, -(1 << 53), 1 << 62, -(1 << 62), math.MaxInt64, -math.MaxInt64}
+
+// genBigPool: 2-6 integers from one or two neighbourhoods of the bases, each
+// spelled as an integer or a (padded) integer string, in drawn (unsorted)
+// order. Two integers compare exactly, an integer and a float as float64
+// (documented ladder). With floats in the column the integers therefore keep
+// distinct float64 images: two different integers with one image next to a
+// float of that value would make "equal sort keys" intransitive, which is
+// outside the property's quantifier (mutually comparable values).
+func genBigPool(t *rapid.T, source string, withFloats bool) []val.Val {
+	var ints []int64
+	nb := rapid.IntRange(1, 2).Draw(t, "bigBases")
+	for b := 0; b < nb; b++ {
+		base := pickW(t, "bigBase", bigBases)
+		nk := rapid.IntRange(2, 3).Draw(t, "bigNeighbours")
+		for k := 0; k < nk; k++ {
+			d := int64(rapid.IntRange(-2, 2).Draw(t, "bigDelta"))
+			x := base + d
+			if (d > 0 && x < base) || (d < 0 && x > base) {
+				x = base // would leave the 64-bit range
+			}
+			ok := true
+			for _, y := range ints {
+				if y == x || (withFloats && float64(y) == float64(x)) {
+					ok = false
+				}
+			}
+			if ok {
+				ints = append(ints, x)
+			}
+		}
+	}
+	var pool []val.Val
+	for _, x := range ints {
+		asStr := source == "csv" || chance(t, "bigAsStr", 40)
+		if withFloats && rare(t, "bigFloatCell", 35) {
+			f := float64(x)
+			if asStr {
+				pool = append(pool, val.Str(strconv.FormatFloat(f, 'f', -1, 64)+".0"))
+			} else {
+				pool = append(pool, val.Float(f))
+			}
+			continue
+		}
+		if !asStr {
+			pool = append(pool, val.Int(x))
+			continue
+		}
+		pool = append(pool, val.Str(pickW(t, "bigPadL", []string{"  ", " ", ""})+strconv.FormatInt(x, 10)+pickW(t, "bigPadR", []string{" ", "", ""})))
+	}
+	return pool
+}
+
+// bigIntInfo describes the integers of the key columns: some beyond 2^53, two
+// different ones with the same float64 image, floats in such a column.
+func bigIntInfo(rows [][]val.Val, keys []keyItem) (beyond, sameImage, withFloat, intransitive bool) {
+	for _, k := range keys {
+		img := map[float64]int64{}
+		colBeyond, colSame, colFloat := false, false, false
+		for _, row := range rows {
+			v := row[k.Col]
+			if v.IsNull() {
+				continue
+			}
+			if i, ok := ref.AsInteger(v); ok {
+				if i >= 1<<53 || i <= -(1<<53) {
+					colBeyond = true
+				}
+				if j, seen := img[float64(i)]; seen && j != i {
+					colSame = true
+				}
+				img[float64(i)] = i
+			} else if _, ok := ref.AsFloat(v); ok {
+				colFloat = true
+			}
+		}
+		beyond = beyond || colBeyond
+		sameImage = sameImage || colSame
+		withFloat = withFloat || (colFloat && colBeyond)
+		intransitive = intransitive || (colSame && colFloat)
+	}
+	return
+}
+
 var dtStrings = []string{
 	"2012-02-03", "2012/02/03", "2012-02-03 00:00:00", "2012-02-03T00:00:00Z", "2012-02-03 09:00:00 +09:00",
 	"2012-02-03 10:30:00", "2012-02-03T10:30:00", "2012/02/03 10:30:00", "2012-02-03 10:30:00.5", "2012-02-03T08:30:00-02:00",
@@ -275,6 +360,11 @@ func genTable(t *rapid.T, c *sortCase) {
 		allowPair := !avoidKnownIntFloatEqual && chance(t, "intFloatPair", 35)
 		allowBool := !avoidKnownBoolLikeText && chance(t, "boolLikeText", 20)
 		seenI, seenF := map[float64]bool{}, map[float64]bool{}
+		if kind == "num" && rare(t, "bigInts", 20) {
+			// integers around +-2^53, +-2^62, +-(2^63-1) that differ by 1-2, optionally with floats of that magnitude
+			pools[j] = genBigPool(t, c.Source, rare(t, "bigWithFloats", 35))
+			continue
+		}
 		for k := 0; k < ps; k++ {
 			switch kind {
 			case "num":
@@ -732,6 +822,11 @@ func buildRef(c sortCase) *refModel {
 			}
 		}
 	}
+	if _, _, _, intransitive := bigIntInfo(c.Rows, c.Keys); intransitive {
+		// integers compare exactly, integer and float as float64: with two integers of one
+		// float64 image and floats in the column "equal" is not transitive
+		m.bad = true
+	}
 	m.order = make([]int, m.n)
 	for i := range m.order {
 		m.order[i] = i
@@ -1156,6 +1251,19 @@ func checkCaseExt(c sortCase, pre string, refRows [][]val.Val) (fw.Outcome, *fw.
 	if c.hasIntFloatEqual() {
 		addClass("int_float_equal_pair")
 	}
+	bigFp := ""
+	if beyond, sameImage, withFloat, _ := bigIntInfo(rc.Rows, c.Keys); beyond {
+		addClass("key_integers_beyond_2^53")
+		bigFp = "|big"
+		if sameImage {
+			addClass("key_integers_with_same_float64_image")
+			bigFp += "+same_image"
+		}
+		if withFloat {
+			addClass("key_integers_beyond_2^53_next_to_floats")
+			bigFp += "+floats"
+		}
+	}
 	if c.hasBoolLike() {
 		addClass("bool_like_text")
 	}
@@ -1175,7 +1283,7 @@ func checkCaseExt(c sortCase, pre string, refRows [][]val.Val) (fw.Outcome, *fw.
 		addClass("key_dir:" + map[string]string{"A": "ASC", "a": "default", "D": "DESC"}[d])
 		addClass("key_nulls:" + map[string]string{"-": "default", "F": "FIRST", "L": "LAST"}[np])
 	}
-	keys := strings.Join(keyFp, ",") + "|tb:" + c.TieBreak
+	keys := strings.Join(keyFp, ",") + "|tb:" + c.TieBreak + bigFp
 	interesting := len(c.Keys) >= 2 || dupFirst || hasNull
 
 	if cut.Form == "none" {
@@ -1312,13 +1420,13 @@ func describe(c sortCase, out []outRow) string {
 
 const assumeNeg = "negative LIMIT / OFFSET / PERCENT values: the manual is silent, so an ordinary error or any sorted duplicate-free subset of the table is accepted (a Fatal Error is not)"
 const assumePct = "rounding of a fractional PERCENT row count is not documented: floor and ceiling are both accepted; for percentages that are not multiples of 0.25 an exactly whole product may be off by one through binary floating point"
-const assumeDomain = "key columns: numbers (|x| <= 1e10, no NaN/Inf), datetimes in the layouts the ladder reference parses, or text that is neither numeric nor datetime-like; cases where the documented ladder gives no order for some pair are discarded"
+const assumeDomain = "key columns: numbers (|x| <= 1e10, or - in 20% of the number columns - integers within 2 of +-2^53, +-2^62, +-(2^63-1) as integers or padded integer strings, compared exactly; when floats of that magnitude share the column the integers keep distinct float64 images, because an integer and a float compare as float64 and equal keys must stay transitive; no NaN/Inf), datetimes in the layouts the ladder reference parses, or text that is neither numeric nor datetime-like; cases where the documented ladder gives no order for some pair are discarded"
 
 func TestC07Sort(t *testing.T) {
 	fw.Run(t, fw.Spec[sortCase]{
 		ID: "C07", Name: "sort", Quick: 10000, Thorough: 200000,
 		Gen: genSortCase, Check: checkCase,
-		Rule: "tables of 0-12 rows (10%: 160-400 rows with CPU 4) from a CSV file or a typed temporary table, 1-3 key columns of numbers / datetimes / text drawn from small pools (duplicates) with 0-40% NULLs; ORDER BY over 1-3 of them with ASC/DESC and NULLS FIRST/LAST, optionally id as unique last key; oracle: every output row is an input row (by id, cell for cell), none twice, all present, and output position i holds a row of the tie group that the reference order (documented comparison ladder, documented NULL default) has at position i; non-trivial = >=2 rows and (>=2 keys or duplicates in the first key or NULLs), distinct by (key kinds/directions/null positions, tiebreak, source, tie structure, size class, select list)",
+		Rule: "tables of 0-12 rows (10%: 160-400 rows with CPU 4) from a CSV file or a typed temporary table, 1-3 key columns of numbers (incl. neighbouring integers beyond 2^53 that share a float64 image) / datetimes / text drawn from small pools (duplicates) with 0-40% NULLs; ORDER BY over 1-3 of them with ASC/DESC and NULLS FIRST/LAST, optionally id as unique last key; oracle: every output row is an input row (by id, cell for cell), none twice, all present, and output position i holds a row of the tie group that the reference order (documented comparison ladder, documented NULL default) has at position i; non-trivial = >=2 rows and (>=2 keys or duplicates in the first key or NULLs), distinct by (key kinds/directions/null positions, tiebreak, source, tie structure, size class, select list)",
 		Assumptions: []string{assumeDomain, "tie order is free: rows with equal keys are only required to occupy their group's positions"},
 	})
 }
